@@ -116,19 +116,32 @@ fn write(
 ) -> std::io::Result<usize> {
     let initial_state = state.clone();
 
-    for printable in state.strip_next(buf) {
-        let possible = printable.len();
-        let written = raw.write(printable)?;
-        if possible != written {
-            let divergence = &printable[written..];
-            let offset = offset_to(buf, divergence);
+    // Hand over at most one printable run per call so that an error or a short write of `raw`
+    // can be reported without taking back progress that was already made
+    let (start, possible, result) = match state.strip_next(buf).next() {
+        Some(printable) => (
+            offset_to(buf, printable),
+            printable.len(),
+            raw.write(printable),
+        ),
+        None => {
+            return Ok(buf.len());
+        }
+    };
+    match result {
+        Ok(written) if written == possible => Ok(start + written),
+        Ok(written) => {
+            let offset = start + written;
             let consumed = &buf[..offset];
             *state = initial_state;
             state.strip_next(consumed).last();
-            return Ok(offset);
+            Ok(offset)
+        }
+        Err(err) => {
+            *state = initial_state;
+            Err(err)
         }
     }
-    Ok(buf.len())
 }
 
 fn write_all(
